@@ -127,7 +127,12 @@ func names() {
 			}, func(b []byte) (int, bool, error) {
 				var m certs.Name
 				k, err := m.ReadFrom(bytes.NewReader(b))
-				return int(k), nameEq(n, m), err
+				// the same bytes decoded into a value that already held another name must give
+				// the same result (no stale state), and "is the zero name" must survive the trip
+				m2 := certs.Name{Label: []byte("stale.example"), Type: certs.TypeDNSName}
+				_, err2 := m2.ReadFrom(bytes.NewReader(b))
+				same := (err == nil) == (err2 == nil) && (err != nil || (nameEq(m, m2) && m.IsZero() == m2.IsZero()))
+				return int(k), nameEq(n, m) && n.IsZero() == m.IsZero() && same, err
 			})
 		}
 	}
@@ -709,7 +714,7 @@ func main() {
 		}
 		lens = append(lens, 1023, 1024, 1025, 4095, 4096, 4097, 32767, 32768, 65534, 65535, 65536, 65537, 70000, 131072)
 	}
-	R.SetRule("per codec a value grid (lengths 0,1,2,252..257,300,65535,65536 in the quick tier; every length 0..700 plus 1023..1025, 4095..4097, 32767, 32768, 65534..65537, 70000, 131072 in the thorough tier; enums incl. unknown; times 0,1,2^31,2^62; ports; all 64 frame flag combinations; <=2 fields off a baseline for intents) under oracle A (encode refuses, or decode(encode(v)) == v consuming exactly the bytes written), and structured byte strings (valid encodings with each length / type / reserved byte varied and every truncation) under oracle B (what decodes re-encodes and decodes to the same value). Codecs: certs.Name, Certificate (+PEM), common strings, authgrants intent request/communication/denial/confirmation, proxy target info and failure, tube frame and initiate frame, exec init message, port-forward request, user-auth request (through a real reliable tube), DH / signing / KEM public-key text forms. distinct_nontrivial = distinct (codec, case) pairs that reached the decoder.")
+	R.SetRule("per codec a value grid (lengths 0,1,2,252..257,300,65535,65536 in the quick tier; every length 0..700 plus 1023..1025, 4095..4097, 32767, 32768, 65534..65537, 70000, 131072 in the thorough tier; enums incl. unknown; times 0,1,2^31,2^62; ports; all 64 frame flag combinations; <=2 fields off a baseline for intents) under oracle A (encode refuses, or decode(encode(v)) == v consuming exactly the bytes written; for names also: IsZero preserved and decoding into a value that already held another name gives the same result), and structured byte strings (valid encodings with each length / type / reserved byte varied and every truncation) under oracle B (what decodes re-encodes and decodes to the same value). Codecs: certs.Name, Certificate (+PEM), common strings, authgrants intent request/communication/denial/confirmation, proxy target info and failure, tube frame and initiate frame, exec init message, port-forward request, user-auth request (through a real reliable tube), DH / signing / KEM public-key text forms. distinct_nontrivial = distinct (codec, case) pairs that reached the decoder.")
 	names()
 	certificates()
 	stringsCodec()
